@@ -163,7 +163,7 @@ class C07(core.Check):
                   b'1.70141183E+38', b'1.701411834604692D+38', b'9999999', b'99999999', b'9999999999999999',
                   b'99999999999999999', b'12345678901234567890', b'974824.3516702999802', b'-29.9852470385233!',
                   b'6.82538300E-0', b'\n 12', b'\t12', b'1\t2\n3', b'&H', b'&H1F', b'&O17', b'&17', b'&', b'&HG',
-                  b'000000000000000000001', b'0.000', b'100.00', b'1E0000000005', b'65535', b'1e+05', b'1 E 5',
+                  b'000000000000000000001', b'0.000', b'100.00', b'0E5', b'D1', b'.0E10', b'-0D3', b'0E38', b'E1', b'1E0000000005', b'65535', b'1e+05', b'1 E 5',
                   b'123456789012345678901234567890', b'.00000000000000000000000000000000000001',
                   b'100000000000000000000000000000000000000', b'1000000000000000000000000000000000000000!'):
             c.append({'k': 's', 'w': list(w)})
